@@ -175,16 +175,21 @@ class Data:
             self.blen_time[r] = self.height[node] - self.height[r]
         units, nstate = UNITS[self.kind]
         p0, p1 = PREFIX[self.kind]
+        # the alignment is a pure function of the drawn integer seq_seed (own 48-bit LCG, no library RNG): a root
+        # sequence over the unambiguous states; each taxon copies it and replaces a site with probability 1/4 by a
+        # unit drawn from the whole alphabet (ambiguity codes and gaps included)
+        state = [(int(d["seq_seed"]) * 2862933555777941757 + 3037000493) % (1 << 48)]
+
+        def rnd(k):
+            state[0] = (state[0] * 25214903917 + 11) % (1 << 48)
+            return (state[0] >> 17) % k
+
+        L = int(d["L"])
+        root = [rnd(nstate) for _ in range(L)]
         self.seqs = []
         for i in range(n):
-            row = [units[u] if u >= 0 else units[d["root"][j]] for j, u in enumerate(d["mut"][i])]
-            if i == 0:
-                row = p0 + row
-            elif i == 1:
-                row = p1 + row
-            else:
-                row = p0 + row
-            self.seqs.append("".join(row))
+            row = [units[rnd(len(units))] if rnd(4) == 0 else units[root[j]] for j in range(L)]
+            self.seqs.append("".join((p1 if i == 1 else p0) + row))
 
     def newick(self, which):
         scale = 1.0 if which == "time" else self.rate
@@ -281,13 +286,9 @@ def dataset(draw, kind):
         dates[1] = dates[0] + 1 if dates[0] < 16 else dates[0] - 1
     incr = draw(st.lists(st.integers(1, 12), min_size=n - 1, max_size=n - 1))
     locs = ["a", "b"] + draw(st.lists(st.sampled_from(["a", "b"]), min_size=n - 2, max_size=n - 2))
-    units, nstate = UNITS[kind]
     L = draw(st.integers(5, 18)) if kind == "codon" else draw(st.integers(14, 54))
-    root = draw(st.lists(st.integers(0, nstate - 1), min_size=L, max_size=L))
-    keep = 2 * len(units)
-    mut = [draw(st.lists(st.integers(-keep, len(units) - 1), min_size=L, max_size=L)) for _ in range(n)]
     style = draw(st.sampled_from(["plain", "plain", "plain", "dmy"]))
-    return {"kind": kind, "ins": ins, "dates": dates, "incr": incr, "locs": locs, "root": root, "mut": mut, "style": style}
+    return {"kind": kind, "ins": ins, "dates": dates, "incr": incr, "locs": locs, "L": L, "seq_seed": draw(st.integers(0, 2**31 - 1)), "style": style}
 
 
 _DATA_CACHE = {}
@@ -681,7 +682,7 @@ def jacobian_oracle(target, joint, blocks):
             ys = [g().reshape(-1) for g in getters]
             return torch.cat(ys) if ys else flat[:0]
 
-        J = _jac(fy, flat0)
+        J = _jac(fy, flat0) if getters else torch.zeros(0, flat0.numel(), dtype=flat0.dtype)
         dep = None
         if terms:
             delta = 0.173 + 0.061 * torch.arange(flat0.numel(), dtype=flat0.dtype) / max(1, flat0.numel())
@@ -1215,6 +1216,7 @@ def pairwise_case(draw, cmds=None):
     data = draw(dataset(kind))
     D = Data(data)
     o = {"model": model}
+    torch_seed = draw(st.integers(0, 2**20))
 
     def put(name, strategy, p=5):
         """present with probability 1/p; the presence draw shrinks to absent"""
@@ -1349,7 +1351,7 @@ def pairwise_case(draw, cmds=None):
         put("history_size", st.sampled_from([5, 50]), 6)
         put("line_search_fn", st.just("strong_wolfe"), 6)
         put("stem", st.just("run"), 4)
-    return {"cmds": [cmd], "opts": o, "data": data, "torch_seed": draw(st.integers(0, 2**20))}
+    return {"cmds": [cmd], "opts": o, "data": data, "torch_seed": torch_seed}
 
 
 def case_size(case):
@@ -1454,7 +1456,7 @@ def selftest():
             raise AssertionError("Jacobian oracle did not restore the state")
     # regression / MLE oracles on a hand-made clock-like tree
     d = Data({"kind": "nuc", "ins": [0, 3], "dates": [0, 4, 8, 16], "incr": [2, 4, 8], "locs": ["a", "b", "a", "b"],
-              "root": [0] * 14, "mut": [[-1] * 14] * 4, "style": "plain"})
+              "L": 14, "seq_seed": 5, "style": "plain"})
     rate, rh = d.regression("subst")
     if abs(rate - 0.01) > 1e-12 or abs(rh - d.root_height) > 1e-9:
         raise AssertionError("regression oracle: %r %r vs %r" % (rate, rh, d.root_height))
